@@ -808,5 +808,26 @@ def C06.badStarve (c : Ctx) (obsDelta : Int) (j : Journal) : List String :=
     (if adds != 0 then ["taint-while-a-pod-is-starved"] else []) ++
     (if obsDelta < 1 then ["starved-pod-but-decision-" ++ toString obsDelta] else [])
 
+/-- Number of taints with the escalator key. -/
+def escCount (n : Node) : Nat := (n.taints.filter (fun t => t.key == escKey)).length
+
+/-- **C15, the whole scan.** "A node that already carries the escalator taint is never re-stamped": an UPDATE that *adds* an
+    escalator taint (its object carries more of them than the copy fetched just before) must name a node that carries none in
+    this scan's view. Judged on (entry, response) pairs like `C15.bad`. Removing and adding in two steps inside one scan — each
+    step precise on its own — is what this catches. -/
+def C15.restampBad (view : View) : Option Node → List (Entry × Resp) → List String
+  | _, [] => []
+  | last, (e, r) :: rest =>
+    match e.call with
+    | .getNode _ => C15.restampBad view (match r with | .node n => some n | _ => none) rest
+    | .updateNode obj =>
+      (match last with
+       | some u =>
+         if u.name == obj.name && decide (escCount obj > escCount u) && view.nodes.any (fun c => c.name == obj.name && hasTaint escKey c)
+         then [obj.name] else []
+       | none => []) ++ C15.restampBad view none rest
+    | .describeInstances _ => C15.restampBad view last rest
+    | _ => C15.restampBad view none rest
+
 end Spec
 end Esc
